@@ -255,6 +255,22 @@ PROPS = {
         "require": {"pairs": 1000000, "paths.success": 300000, "paths.failed": 1000, "long.cases": 50, "origins.ball": 300},
         "assumptions": ["geometric adjacency is the neighbour relation of the statement (validated by C08)"],
     },
+    "C19": {
+        "sources": KIT + ["mon_C19.c"],
+        "phases": simple("mon_C19.c"),
+        "level": "exploration",
+        "level_text": "For every cell of res 0-4 (quick) / 0-6 (thorough) and for the 1-2 disks of 20-35 seeds on each of the 30 icosahedron edges, the 12 vertices, 20 face centres at every finer resolution: slot count, "
+                      "distinct entries 0-19, -1 padding, five faces for a pentagon and one or two for a hexagon, every face on which a decided interior sample lies (nearest face centre by > 1e-9; centre, strict-interior "
+                      "vertices, 12x12 / 40x40 grid per fan triangle) is reported, and every reported face is hit by a sample (densified to 200x200) or provably within 1e-9 of the cell (counted ambiguous). ASan+UBSan.",
+        "level_note": "Trusted base: Voronoi characterisation of icosahedron faces; face numbering from the library's faceCenterGeo table, whose geometry is cross-checked against centroids of adjacent pentagon centres.",
+        "technique": "runtime monitoring: geometric sampling oracle (nearest face centre of interior points) under ASan/UBSan",
+        "evaluations": ["cells"],
+        "rule": "a case is one cell. Non-trivial = cell whose interior samples hit more than one face, or a pentagon; distinct by cell.",
+        "require": {"cells": 300000, "cells.multi_face": 5000, "special.cells": 20000, "face_centres_crosschecked": 20},
+        "exhaustive": True,
+        "exhaustive_note": "all cells of res 0-4 (quick) / 0-6 (thorough)",
+        "assumptions": ["a face sliver thinner than the sampling grid and farther than 1e-9 from every strict-interior vertex would be reported as unexplained (densification to 200x200 bounds this)"],
+    },
     "C20": {
         "sources": KIT + ["mon_C20.c"],
         "phases": simple("mon_C20.c"),
